@@ -282,3 +282,35 @@ Proof.
     rewrite forallb_forall in B. apply N.leb_le. apply B. apply rangeN_In. lia. }
   rewrite N.mod_small by lia. apply be16_roundtrip. lia.
 Qed.
+
+(* ------------------------------------------------------------------ packaged for Properties/C13Bls.v *)
+Theorem no_bit_without_valid_sig : forall ops r p,
+  reg_get (regs_after [] ops) r = Some p ->
+  (forall i, N.testbit (p_bits p) i = true ->
+     i < t_n (p_tree p) /\
+     exists idx sg, nthN (t_sigs (p_tree p)) idx = Some (Some sg) /\
+                    In i (leaves_of (t_keys (p_tree p)) idx)) /\
+  (forall idx sg, nthN (t_sigs (p_tree p)) idx = Some (Some sg) ->
+     verify (key_at (t_keys (p_tree p)) idx) (p_msg p) sg = true /\
+     forall i, In i (leaves_of (t_keys (p_tree p)) idx) -> N.testbit (p_bits p) i = true).
+Proof.
+  intros ops r p E. apply pinv_meaning. exact (run_invariant ops [] regs_ok_nil r p E).
+Qed.
+
+Theorem merge_total_pinv : forall p o, pinv p -> pinv o ->
+  exists p' f, merge p o = Ok (p', f) /\ pinv p' /\
+    (forall i, N.testbit (p_bits p) i = true -> N.testbit (p_bits p') i = true).
+Proof.
+  intros p o Hp Ho. destruct (merge_total p o Hp Ho) as (p' & f & E). exists p', f. split; [exact E|].
+  exact (merge_pinv p o p' f Hp E).
+Qed.
+
+Theorem run_no_panic : forall ops o,
+  snd (step (regs_after [] ops) o) = obs_panic ->
+  (exists r n msg hash, o = BNew r n msg hash /\ (n < 1 \/ 65535 < n)) \/ (exists r, o = BBits r).
+Proof. intros ops o. apply step_no_panic. apply run_invariant. exact regs_ok_nil. Qed.
+
+(** the observations compared by the correspondence check are those of the same steps *)
+Lemma run_from_steps : forall ops rs, run_from rs ops =
+  match ops with [] => [] | o :: t => snd (step rs o) :: run_from (fst (step rs o)) t end.
+Proof. intros [|o t] rs; cbn [run_from]; [reflexivity|]. destruct (step rs o). reflexivity. Qed.
